@@ -151,6 +151,38 @@ func checkC16(p *Program, r *Report) {
 	r.Rule("C16.reject", "E3", "invalid input builds nothing", 4)
 	ii := p.Method(p.Array, "Base", "InitIndex")
 	in := p.Method(p.Array, "Base", "Init")
+	// the validation may live in an unexported helper the exported method delegates to
+	// (Init -> initWith): the rules are stated on the function that returns the sentinel
+	returnsSentinel := func(f *ssa.Function, sentinel string) bool {
+		for _, ret := range returnsOf(f) {
+			for _, res := range ret.Results {
+				if ld, ok := deref(res); ok {
+					if g, ok := ld.(*ssa.Global); ok && g.Name() == sentinel {
+						return true
+					}
+				}
+			}
+		}
+		return false
+	}
+	delegate := func(f *ssa.Function, sentinel string) *ssa.Function {
+		if f == nil || returnsSentinel(f, sentinel) {
+			return f
+		}
+		for _, c := range callsIn(f) {
+			if h := calleeOf(c); h != nil && pkgPathOf(h) == arrayPath && len(h.Blocks) > 0 && returnsSentinel(h, sentinel) {
+				// the helper gets the receiver
+				for _, a := range c.Common().Args {
+					if len(f.Params) > 0 && a == ssa.Value(f.Params[0]) {
+						return h
+					}
+				}
+			}
+		}
+		return f
+	}
+	ii = delegate(ii, "ErrIndexNotAscending")
+	in = delegate(in, "ErrIndexLen")
 	if ii == nil || in == nil {
 		r.Unk("(*array.Base).InitIndex/Init", "", "anchor not found")
 	} else {
